@@ -99,6 +99,12 @@ def extra_shapes(extra_attrs=()):
                       [Assoc(1, 'B', ['X'], True, True, '', 'A', ['Id'], False, True, ''),
                        Assoc(2, 'B', ['X'], True, True, '', 'C', ['Id'], False, True, '')],
                       [(k, 'I1', ['Id']) for k in ('A', 'B', 'C')]))
+    # (e0) reflexive 1C:1C whose two ends carry the same (empty) phrase: loadable and checkable (C11), although the two ends
+    #      cannot be told apart when navigating (round 8, C11-15)
+    out.append(Schema('e0_reflexive_unphrased',
+                      [('A', [ID, ('Next_Id', 'unique_id')] + x)],
+                      [Assoc(2, 'A', ['Next_Id'], False, True, '', 'A', ['Id'], False, True, '')],
+                      [('A', 'I1', ['Id'])]))
     # (k) 1:1 unconditional on both sides (C11: a rejected relate must not hide the missing partner of the other instance)
     out.append(Schema('k_1_1',
                       [('A', [ID] + x), ('B', [ID, ('A_Id', 'unique_id')] + x)],
